@@ -18,6 +18,7 @@
 #include <assemblyline.h>
 #include <verif_hooks.h>
 #include <signal.h>
+#include <errno.h>
 #include <stdio.h>
 #include <stdlib.h>
 #include <string.h>
@@ -69,6 +70,8 @@ static int run_once(const char *text, int oi, int mode, int off0, unsigned char 
   asm_set_offset(al, off0);
   int ret;
   *dest = -1;
+  /* errno belongs to the caller and holds whatever an earlier call of anything left there: the result must not depend on it */
+  errno = (oi % 3 == 0) ? ERANGE : (oi % 3 == 1) ? EINTR : 0;
   if (mode == 2)
     ret = asm_assemble_string_counting_chunks(al, (char *)text, chunk, dest);
   else
